@@ -203,11 +203,11 @@ def check_of_k(run, E):
             yield ck
 
 
-def check_leave_one_out(run, E):
+def check_leave_one_out(run, E, pid='C05'):
     for fn, which, method in (('sets_leave_one_out_pattern', 'pattern_descriptors', 'subset_pattern'),
                               ('sets_leave_one_out_rdm', 'rdm_descriptors', 'subset')):
         base = fold_post('post', which, method)
-        ck = FuncCheck(E, run, 'C05', CV + fn, '')
+        ck = FuncCheck(E, run, pid, CV + fn, '')
 
         def mk(E):
             rdms = E.sym_obj('rdms', 'RDMs')
